@@ -534,6 +534,9 @@ func (t *Task) Sleeping() bool {
 	return w > ClockNanos() // a sleeper whose time has come is runnable, not sleeping
 }
 
+// AtSleep reports whether the task is parked in a Sleep call, whether or not its time has come (scheduler goroutine only).
+func (t *Task) AtSleep() bool { return !t.done && t.parked && t.lastKind == KSleep }
+
 // Tasks returns the live tasks.
 func (s *Sim) Tasks() []*Task {
 	var out []*Task
